@@ -737,6 +737,7 @@ static int cmd_ptcheck (const Args &a)
 	uint64_t seed = (uint64_t) a.geti ("seed", 1), start = (uint64_t) a.geti ("start", 0), count = (uint64_t) a.geti ("count", 200), stride = (uint64_t) a.geti ("stride", 1) ;
 	std::string root = a.get ("root", g_tmpdir + "/pt." + std::to_string ((int) getpid ())) ;
 	g_os = new SimOS ;
+	install_watchdog (30) ;		// CPU seconds without progress (a library call that spins without doing I/O)
 	uint64_t checked = 0, mism = 0, skipped = 0, syscalls = 0 ;
 	std::string first ;
 	for (uint64_t k = 0 ; k < count ; k++)
@@ -754,6 +755,7 @@ static int cmd_ptcheck (const Args &a)
 			std::string kind = op.gets ("op") ; if (kind == "crash" || kind == "badopen" || kind == "bad" || kind == "storm") ok = false ;
 		}
 		if (!ok) { skipped ++ ; continue ; }
+		note_current_plan (J ()) ;		// progress tick for the watchdog
 		ExecOpts e1 ; Result r1 = execute (plan, e1) ;
 		ExecOpts e2 ; e2.passthrough = true ; e2.pt_root = root ; Result r2 = execute (plan, e2) ;
 		checked ++ ; syscalls += r1.io.steps ;
